@@ -66,6 +66,7 @@ type Outcome struct {
 	Undec     []string
 	bytes     map[types.Object]Lin
 	ints      map[types.Object]Lin // integer locals that hold a linear expression of the cursor variables (p := lex.p)
+	consts    map[types.Object]string // locals that hold a named constant on this path (id := token.T_COMMENT)
 	isDefault bool
 	defaultAt int
 }
@@ -86,6 +87,12 @@ func (o *Outcome) clone() *Outcome {
 		n.bytes = map[types.Object]Lin{}
 		for k, v := range o.bytes {
 			n.bytes[k] = v
+		}
+	}
+	if o.consts != nil {
+		n.consts = map[types.Object]string{}
+		for k, v := range o.consts {
+			n.consts[k] = v
 		}
 	}
 	return &n
@@ -191,6 +198,37 @@ func (m *Machine) lin(e ast.Expr, o *Outcome) (Lin, bool) {
 		}
 	}
 	return Lin{}, false
+}
+
+// namedConst: e names a declared constant (token.T_COMMENT); its spelling.
+func (m *Machine) namedConst(e ast.Expr) (string, bool) {
+	e = unparen(e)
+	var id *ast.Ident
+	switch x := e.(type) {
+	case *ast.Ident:
+		id = x
+	case *ast.SelectorExpr:
+		id = x.Sel
+	default:
+		return "", false
+	}
+	if _, ok := m.info().Uses[id].(*types.Const); ok {
+		return types.ExprString(e), true
+	}
+	return "", false
+}
+
+// constName: the spelling of e, or, when e is a local that holds a named constant on this path, that
+// constant's spelling.
+func (m *Machine) constName(e ast.Expr, o *Outcome) string {
+	if id, ok := unparen(e).(*ast.Ident); ok && o.consts != nil {
+		if obj := m.info().ObjectOf(id); obj != nil {
+			if n, ok := o.consts[obj]; ok {
+				return n
+			}
+		}
+	}
+	return types.ExprString(e)
 }
 
 func copyBytes(m map[types.Object]Lin) map[types.Object]Lin {
@@ -319,7 +357,7 @@ func (m *Machine) exec(st ast.Stmt, o *Outcome) []*Outcome {
 					return outs
 				}
 			}
-			ev("tok", types.ExprString(x.Rhs[0]))
+			ev("tok", m.constName(x.Rhs[0], o))
 			return []*Outcome{o}
 		case "lex.stack[lex.top]":
 			ev("push", types.ExprString(x.Rhs[0]))
@@ -341,6 +379,17 @@ func (m *Machine) exec(st ast.Stmt, o *Outcome) []*Outcome {
 			if obj != nil {
 				if o.ints != nil {
 					delete(o.ints, obj)
+				}
+				if o.consts != nil {
+					delete(o.consts, obj)
+				}
+				if len(x.Rhs) == 1 {
+					if name, ok := m.namedConst(x.Rhs[0]); ok {
+						if o.consts == nil {
+							o.consts = map[types.Object]string{}
+						}
+						o.consts[obj] = name
+					}
 				}
 				if len(x.Rhs) == 1 && !m.markSet()[obj] {
 					if b, isInt := obj.Type().Underlying().(*types.Basic); isInt && b.Kind() == types.Int {
@@ -382,7 +431,7 @@ func (m *Machine) exec(st ast.Stmt, o *Outcome) []*Outcome {
 			if !ok1 || !ok2 {
 				return undec("free-floating bounds " + types.ExprString(call.Args[2]) + ", " + types.ExprString(call.Args[3]))
 			}
-			o.Events = append(o.Events, Event{Kind: "ff", ID: types.ExprString(call.Args[1]), A: a, B: b, TS: o.TS, TE: o.TE, At: st.Pos()})
+			o.Events = append(o.Events, Event{Kind: "ff", ID: m.constName(call.Args[1], o), A: a, B: b, TS: o.TS, TE: o.TE, At: st.Pos()})
 		case "lex.ungetCnt":
 			k, ok := m.lin(call.Args[0], o)
 			if !ok {
